@@ -82,7 +82,7 @@ impl StepHook for Transcript {
 
 pub fn run_transcript(case: &Case, stats: &mut Stats, keep: bool) -> (Outcome, Transcript) {
     let mut t = Transcript { lines: Vec::new(), keep, dig: Dig::new() };
-    let opts = RunOpts { cfg: case.cfg, garbage_seed: 1, shadow: false, oracles: OracleSet::None, want_text: true };
+    let opts = RunOpts { cfg: case.cfg, garbage_seed: 1, shadow: false, oracles: OracleSet::None, want_text: true, cmp_oracle: false };
     let o = run_ops(&case.ops, &opts, stats, &mut t);
     (o, t)
 }
